@@ -23,7 +23,7 @@ TRUSTED = [
     "function and of its nested_functions at any depth -- the set Function::remap_constants rewrites)",
 ]
 
-IMPORTS = "From Aelys Require Import Model.Gc.\nLocal Open Scope N_scope."
+IMPORTS = "From Aelys Require Import Model.Gc Model.GcRoots.\nLocal Open Scope N_scope."
 
 # signatures of the two repaired defects (KF-C03-1 fixed by ad6fcd1, KF-C03-2 fixed by 9ba6d0e): plain violations now
 KF1 = "reachable-freed:only-via-nested-function-constant"
@@ -54,11 +54,12 @@ def parse(out):
         t = line.split("\t")
         if t[0] == "P" and len(t) == 4:
             progs[int(t[1])] = {"class": t[2], "source": unesc(t[3])}
-        elif t[0] == "R" and len(t) == 12:
+        elif t[0] == "R" and len(t) == 15:
             runs.setdefault(int(t[1]), {})[t[2]] = {
                 "class": t[3], "output": t[4], "value": t[5], "detail": t[6], "collections": int(t[7]),
                 "nested_losses": int(t[8]), "pending_seen": int(t[9]), "exposure": int(t[10]),
-                "running_closure_losses": int(t[11])}
+                "running_closure_losses": int(t[11]), "only_frame_rooted": int(t[12]),
+                "stale_register_ptrs": int(t[13]), "cache_ptrs": int(t[14])}
         elif t[0] == "X" and len(t) == 6:
             probs.append({"prog": int(t[1]), "sched": t[2], "collection": int(t[3]), "sig": t[4], "detail": t[5]})
         elif t[0] == "D" and len(t) == 7:
@@ -99,13 +100,13 @@ def run(ctx):
         "the model of mark/sweep/collect is the code: checked by the heap-graph contract tie on dumps of the running VM",
         "roots = what VM::collect enumerates (verif_roots); completeness of that list is explored, not proved",
     ]
-    proved = ctx.prove("C03")
+    proved = ctx.prove("C03", extracted=["GcRootFields"])
     ctx.cov["refuted_lemmas"] = []
     ctx.cov["historical"] = ["C03_old_mark_nested_constants_refuted: Heap::mark before /repo ad6fcd1 (edges_old) freed a reachable "
                              "object on the heap dumped from the pre-repair VM; the current collector keeps it (C03_witness_now_survives)"]
     if ctx.tier == "thorough" and proved:
         ctx.coqchk("C03")
-    ok, out = vlib.coq_make(["Base/CaseCheck.vo", "Model/Gc.vo"])
+    ok, out = vlib.coq_make(["Base/CaseCheck.vo", "Model/Gc.vo", "Model/GcRoots.vo"])
     if not ok:
         ctx.broken.append("coq: model files for the C03 tie do not build")
         ctx.log(out[-2000:])
@@ -184,6 +185,10 @@ def run(ctx):
                 stats["collections_audited"] += r["collections"]
                 stats["collections_with_nested_constants_live"] += r["exposure"]
                 stats["collections_while_makeclosure_fn_unrooted"] += r["pending_seen"]
+                for k2, k3 in (("collections_with_a_running_function_or_closure_rooted_by_its_frame_only", "only_frame_rooted"),
+                               ("pointer_registers_above_all_windows_seen", "stale_register_ptrs"),
+                               ("pointer_values_in_layout_snapshots_seen", "cache_ptrs")):
+                    stats[k2] = stats.get(k2, 0) + r[k3]
                 if sched == "1:0":
                     if r["collections"]:
                         ctx.broken.append("schedule 1:0 collected: the GC schedule hook no longer works")
@@ -213,14 +218,14 @@ def run(ctx):
             cases.append((d["q"], d["obs"]))
             meta.append(d)
         tot_dumps += len(cases)
-        fails, err = vlib.coq_eval_cases("c03", IMPORTS, "gc_obs", "obs_eqb", cases, shard=60, timeout=2400)
+        fails, err = vlib.coq_eval_cases("c03", IMPORTS, "vm_obs", "obs_eqb", cases, shard=60, timeout=2400)
         if err:
             ctx.broken.append("correspondence C03: model evaluation failed")
             ctx.log(err[-3000:])
         if fails:
             ctx.broken.append(f"correspondence C03 ({prof}): model collect and VM::collect differ on {len(fails)} of {len(cases)} dumped heaps")
             bad = [meta[i] for i in fails[:3]]
-            mo, _ = vlib.coq_eval_terms("c03", IMPORTS, [f"gc_obs ({b['q']})" for b in bad])
+            mo, _ = vlib.coq_eval_terms("c03", IMPORTS, [f"vm_obs ({b['q']})" for b in bad])
             ctx.cov["disagreements"] = [{"program": progs[b["prog"]]["source"], "schedule": b["sched"], "collection": b["collection"],
                                          "site(depth,ip,op)": b["site"], "implementation": b["obs"][:600], "model": (m or "")[:600]}
                                         for b, m in zip(bad, mo)]
